@@ -74,6 +74,7 @@ func ruleVersionArgs(c *Ctx, p *core.Program, rule string) {
 	}
 	c.R.Count("revision arguments in package ch", n)
 	c.R.Floor(rule, cfg, n, 9)
+	ruleVersionPassThrough(c, p, rule+"-through")
 	// decodeOptions.ProtocolVersion default
 	db := p.Method(core.PkgCh, "Client", "decodeBlock")
 	if db != nil {
@@ -115,6 +116,110 @@ func ruleVersionArgs(c *Ctx, p *core.Program, rule string) {
 	}
 }
 
+// ruleVersionPassThrough: inside package proto a codec hands the revision it was given on unchanged.
+func ruleVersionPassThrough(c *Ctx, p *core.Program, rule string) {
+	c.R.Rule(rule, "pass-through: a function of package proto that takes a protocol revision (`version` parameter) passes that very parameter wherever it calls another proto function taking a revision or evaluates a Feature gate - never the library constant Version or another value: a nested encoder fed the library's own revision writes fields (custom-serialization flag, ...) that a peer negotiated down to an older revision does not expect")
+	cfg := p.Cfg.Name
+	n := 0
+	verParam := func(fn *ssa.Function) *ssa.Parameter {
+		for _, pr := range fn.Params {
+			if pr.Name() == "version" || pr.Name() == "revision" {
+				if b, ok := pr.Type().Underlying().(*types.Basic); ok && b.Info()&types.IsInteger != 0 {
+					return pr
+				}
+			}
+		}
+		return nil
+	}
+	for _, fn := range p.Funcs() {
+		if fn.Pkg == nil || fn.Pkg.Pkg.Path() != core.PkgProto || fn.Blocks == nil {
+			continue
+		}
+		// closures use the enclosing function's parameter
+		host := fn
+		for host.Parent() != nil {
+			host = host.Parent()
+		}
+		vp := verParam(host)
+		if vp == nil {
+			continue
+		}
+		isOwn := func(a ssa.Value) bool {
+			a = stripConv(a)
+			if a == ssa.Value(vp) {
+				return true
+			}
+			// captured by a closure
+			if fv, ok := a.(*ssa.FreeVar); ok && fv.Name() == vp.Name() {
+				return true
+			}
+			if u, ok := a.(*ssa.UnOp); ok && u.Op == token.MUL {
+				if fv, ok := u.X.(*ssa.FreeVar); ok && fv.Name() == vp.Name() {
+					return true
+				}
+				if al, ok := u.X.(*ssa.Alloc); ok {
+					// the parameter spilled to a cell (captured): every store to the cell is the parameter
+					okAll, any := true, false
+					for _, r := range *al.Referrers() {
+						if st, ok := r.(*ssa.Store); ok && st.Addr == al {
+							any = true
+							if stripConv(st.Val) != ssa.Value(vp) {
+								okAll = false
+							}
+						}
+					}
+					return any && okAll
+				}
+			}
+			return false
+		}
+		for _, call := range core.Calls(fn) {
+			f := core.CalleeFunc(call)
+			if f == nil || f.Pkg() == nil || f.Pkg().Path() != core.PkgProto {
+				continue
+			}
+			sig := f.Type().(*types.Signature)
+			args := call.Common().Args
+			off := 0
+			if !call.Common().IsInvoke() && sig.Recv() != nil {
+				off = 1
+			}
+			for i := 0; i < sig.Params().Len(); i++ {
+				pn := sig.Params().At(i).Name()
+				if !(pn == "version" || pn == "revision" || (isFeatureIn(f) && i == 0)) {
+					continue
+				}
+				if off+i >= len(args) {
+					continue
+				}
+				n++
+				key := core.CallKey(fn, call)
+				if isOwn(args[off+i]) {
+					c.R.Ok(rule, key, cfg, p.Pos(call.Pos()), "own revision parameter passed on")
+				} else {
+					c.R.Bad(rule, key, cfg, p.Pos(call.Pos()), sprintf("%s is given a revision (%s) and calls %s with %s instead: the nested codec runs under another revision than its caller", core.FuncName(fn), vp.Name(), f.Name(), args[off+i].String()))
+				}
+			}
+		}
+	}
+	c.R.Count("revision pass-through sites in package proto", n)
+	c.R.Floor(rule, cfg, n, 40)
+}
+
+// helloReader: the function that reads the server's answer to the hello - the handshake goroutine
+// itself or the client method it calls that reads the packet code.
+func helloReader(hg *ssa.Function) *ssa.Function {
+	if len(core.FindCalls(hg, isClientMethod("packet"))) > 0 {
+		return hg
+	}
+	for _, call := range core.Calls(hg) {
+		if sf := core.StaticFn(call); sf != nil && sf.Blocks != nil && pkgOf(sf) != nil && pkgOf(sf).Path() == core.PkgCh && len(core.FindCalls(sf, isClientMethod("packet"))) > 0 {
+			return sf
+		}
+	}
+	return hg
+}
+
 func orDash(o string, v ssa.Value) string {
 	if o != "" {
 		return o
@@ -133,32 +238,11 @@ func isServerSide(fn *ssa.Function) bool {
 	return false
 }
 
-func runC13(c *Ctx) {
-	p := c.Prog(core.CfgDefault)
-	if p == nil {
-		return
-	}
-	cfg := p.Cfg.Name
-	ruleOptionDefaults(c, p, "C13.defaults")
-	hs := p.Method(core.PkgCh, "Client", "handshake")
-	if !c.must(p, "(*ch.Client).handshake", hs != nil) {
-		return
-	}
-	// the handshake goroutine: the closure that decodes the server hello
-	var hg *ssa.Function
-	for _, a := range hs.AnonFuncs {
-		if core.ReachesCallee(a, isClientMethod("packet"), 1) {
-			hg = a
-		}
-	}
-	if !c.must(p, "handshake goroutine (closure of handshake that calls packet())", hg != nil) {
-		return
-	}
-
-	// ---- C13.min
-	rule := "C13.min"
+// ruleNegotiatedMin (C13.min / C02.min): the negotiated revision is min(client, server).
+func ruleNegotiatedMin(c *Ctx, p *core.Program, rule string, hg *ssa.Function) (*ssa.If, ssa.Instruction) {
 	c.R.Rule(rule, "the only store to Client.protocolVersion after construction is of the decoded server revision, control-dependent on `protocolVersion > server.Revision` over loads of those very fields (or the min builtin); the constructor initialises it from Options.ProtocolVersion")
 	var downgradeIf *ssa.If
+	cfg := p.Cfg.Name
 	nStores := 0
 	for _, fn := range p.Funcs() {
 		if fn.Pkg == nil || fn.Pkg.Pkg.Path() != core.PkgCh {
@@ -204,7 +288,13 @@ func runC13(c *Ctx) {
 					})
 					if len(edges) == 1 && core.OnlyViaEdges(fn, s, edges) {
 						downgradeIf = edges[0].B.Instrs[len(edges[0].B.Instrs)-1].(*ssa.If)
-						c.R.Ok(rule, key, cfg, p.Pos(s.Pos()), "downgrade: stored iff protocolVersion > server.Revision")
+						// and conversely: nothing else decides - once the comparison says the server is older, the store happens
+						skip := core.ReachAvoiding(core.Point{B: edges[0].B.Succs[edges[0].Succ], I: -1}, core.IsExit, func(x ssa.Instruction) bool { return x == ssa.Instruction(s) }, nil)
+						if len(skip) > 0 {
+							c.R.Bad(rule, key, cfg, p.Pos(s.Pos()), "the downgrade depends on a further condition: with `protocolVersion > server.Revision` true the store can still be skipped, and the client then speaks a revision the server does not know", p.TrailString(skip[0])...)
+						} else {
+							c.R.Ok(rule, key, cfg, p.Pos(s.Pos()), "downgrade: stored iff protocolVersion > server.Revision")
+						}
 					} else {
 						c.R.Bad(rule, key, cfg, p.Pos(s.Pos()), "the server revision is adopted under a condition other than `negotiated > server.Revision` (wrong operands or direction): a client forced below the server is moved up, or a newer client is not moved down")
 					}
@@ -238,6 +328,12 @@ func runC13(c *Ctx) {
 	}
 	if downgradeSite != nil {
 		dec := core.FindCalls(hg, isClientMethod("decode"))
+		// or a helper of the goroutine that reads the answer and decodes the hello
+		for _, call := range core.Calls(hg) {
+			if sf := core.StaticFn(call); sf != nil && sf.Blocks != nil && pkgOf(sf) != nil && pkgOf(sf).Path() == core.PkgCh && len(core.FindCalls(sf, isClientMethod("decode"))) > 0 && len(core.FindCalls(sf, isClientMethod("packet"))) > 0 {
+				dec = append(dec, call)
+			}
+		}
 		ok := false
 		for _, d := range dec {
 			if core.Dominates(d.(ssa.Instruction), downgradeSite) {
@@ -250,6 +346,39 @@ func runC13(c *Ctx) {
 			c.R.Bad(rule, core.FuncName(hg)+"/order", cfg, p.Pos(downgradeIf.Pos()), "the downgrade test is not dominated by the decode of the server hello")
 		}
 	}
+
+	return downgradeIf, downgradeSite
+}
+
+func runC13(c *Ctx) {
+	p := c.Prog(core.CfgDefault)
+	if p == nil {
+		return
+	}
+	cfg := p.Cfg.Name
+	ruleOptionDefaults(c, p, "C13.defaults")
+	ruleConnChannel(c, p, "C13.conn-channel")
+	ruleCodeWidth(c, p, "C13.codewidth")
+	hs := p.Method(core.PkgCh, "Client", "handshake")
+	if !c.must(p, "(*ch.Client).handshake", hs != nil) {
+		return
+	}
+	// the handshake goroutine: the closure that decodes the server hello
+	var hg *ssa.Function
+	for _, a := range hs.AnonFuncs {
+		if core.ReachesCallee(a, isClientMethod("packet"), 1) {
+			hg = a
+		}
+	}
+	if !c.must(p, "handshake goroutine (closure of handshake that calls packet())", hg != nil) {
+		return
+	}
+
+	// ---- C13.min
+	downgradeIf, downgradeSite := ruleNegotiatedMin(c, p, "C13.min", hg)
+	_ = downgradeIf
+	rule := "C13.min"
+	_ = rule
 
 	// ---- C13.addendum
 	rule = "C13.addendum"
@@ -358,6 +487,16 @@ func runC13(c *Ctx) {
 	func() {
 		hello, _ := constOf(p, core.PkgProto, "ServerCodeHello")
 		exc, _ := constOf(p, core.PkgProto, "ServerCodeException")
+		// the function that reads the answer: the goroutine itself, or the helper it calls for that
+		hr := helloReader(hg)
+		if hr != hg {
+			for _, call := range core.Calls(hg) {
+				if core.StaticFn(call) == hr {
+					checkErrCall(c, p, hg, call, core.CallKey(hg, call)+"/propagated", func(*ssa.Function, ssa.CallInstruction) bool { return false }, rule)
+				}
+			}
+		}
+		hg := hr
 		dec := core.FindCalls(hg, isClientMethod("decode"))
 		isCode := func(v ssa.Value) bool { return core.IsNamed(v.Type(), core.PkgProto, "ServerCode") }
 		helloEdges := core.CondEdges(hg, true, func(cond ssa.Value) (bool, bool) {
@@ -870,7 +1009,7 @@ func runC13(c *Ctx) {
 		}
 	}
 	// the decode target of the hello is Client.server
-	for _, d := range core.FindCalls(hg, isClientMethod("decode")) {
+	for _, d := range core.FindCalls(helloReader(hg), isClientMethod("decode")) {
 		arg := d.Common().Args[1]
 		okT := core.DependsOn(arg, func(v ssa.Value) bool {
 			f, ok := v.(*ssa.FieldAddr)
@@ -953,4 +1092,106 @@ func ruleOptionDefaults(c *Ctx, p *core.Program, rule string) {
 		}
 	}
 	c.R.Floor(rule, cfg, n, 4)
+}
+
+// ---- codewidth (C13 / C04 / C03): a wire packet code is range-checked before it is narrowed
+func ruleCodeWidth(c *Ctx, p *core.Program, rule string) {
+	c.R.Rule(rule, "packet codes travel as uvarint but proto.ServerCode is one byte: in client code, a function that converts the 64-bit result of Reader.UVarInt to a narrower named integer type succeeds only through an edge that bounds the unconverted value by the narrow type's range (n > 255 -> fail) or compares the conversion back with it - otherwise code 256+k is taken for code k, and a handshake answered by packet code 256 followed by a hello body yields a usable client")
+	cfg := p.Cfg.Name
+	n := 0
+	for _, fn := range p.Funcs() {
+		pk := pkgOf(fn)
+		if pk == nil || pk.Path() != core.PkgCh || isServerSide(fn) || fn.Blocks == nil {
+			continue
+		}
+		for _, b := range fn.Blocks {
+			for _, in := range b.Instrs {
+				cv, ok := in.(*ssa.Convert)
+				if !ok {
+					continue
+				}
+				ex, ok := cv.X.(*ssa.Extract)
+				if !ok || ex.Index != 0 {
+					continue
+				}
+				call, ok := ex.Tuple.(*ssa.Call)
+				if !ok {
+					continue
+				}
+				if f := core.CalleeFunc(call); f == nil || !core.IsMethod(f, core.PkgProto, "Reader", "UVarInt") {
+					continue
+				}
+				dt, ok := cv.Type().Underlying().(*types.Basic)
+				if !ok || dt.Info()&types.IsInteger == 0 {
+					continue
+				}
+				var max int64
+				switch dt.Kind() {
+				case types.Uint8:
+					max = 255
+				case types.Int8:
+					max = 127
+				case types.Uint16:
+					max = 65535
+				case types.Int16:
+					max = 32767
+				case types.Uint32:
+					max = 1<<32 - 1
+				case types.Int32:
+					max = 1<<31 - 1
+				default:
+					continue
+				}
+				n++
+				key := core.FuncName(fn) + "/narrow-" + cv.Type().String()
+				inRange := core.CondEdges(fn, false, func(cond ssa.Value) (bool, bool) {
+					bo, ok := cond.(*ssa.BinOp)
+					if !ok {
+						return false, false
+					}
+					if k, okc := core.ConstInt(bo.Y); okc && bo.X == ssa.Value(ex) {
+						switch {
+						case bo.Op == token.GTR && k <= max, bo.Op == token.GEQ && k <= max+1:
+							return true, true
+						case bo.Op == token.LEQ && k <= max, bo.Op == token.LSS && k <= max+1:
+							return false, true
+						}
+					}
+					// uint64(code) != n
+					for _, pair := range [][2]ssa.Value{{bo.X, bo.Y}, {bo.Y, bo.X}} {
+						if back, okb := pair[0].(*ssa.Convert); okb && back.X == ssa.Value(cv) && pair[1] == ssa.Value(ex) {
+							switch bo.Op {
+							case token.NEQ:
+								return true, true
+							case token.EQL:
+								return false, true
+							}
+						}
+					}
+					return false, false
+				})
+				bad := false
+				for _, rb := range fn.Blocks {
+					ret, ok := rb.Instrs[len(rb.Instrs)-1].(*ssa.Return)
+					if !ok || !defaultSuccess(fn, ret) {
+						continue
+					}
+					// only returns after the conversion matter
+					if !(cv.Block() == rb || cv.Block().Dominates(rb)) {
+						continue
+					}
+					if len(inRange) == 0 || !core.OnlyViaEdges(fn, ret, inRange) {
+						bad = true
+					}
+				}
+				if bad {
+					c.R.Bad(rule, key, cfg, p.Pos(cv.Pos()), sprintf("a uvarint from the wire is narrowed to %s without a range check: values above %d wrap around, so an unknown packet code 256+k is handled as code k", cv.Type().String(), max))
+				} else {
+					c.R.Ok(rule, key, cfg, p.Pos(cv.Pos()), "range-checked before the narrow value is used")
+				}
+			}
+		}
+	}
+	c.R.Count("narrowing conversions of wire uvarints in package ch", n)
+	c.R.Floor(rule, cfg, n, 1)
 }
